@@ -227,10 +227,13 @@ def get_model(
 
         logger.debug('Found "%s" association.', assoc.name)
 
+        # The class of an association is named after the asset types the
+        # association is declared on, which the linked assets may be
+        # subtypes of.
         assoc_name = lang_classes_factory.get_association_by_signature(
             assoc.name,
-            left_asset.type,
-            right_asset.type
+            assoc.left_field.asset.name,
+            assoc.right_field.asset.name
         )
 
         if not assoc_name:
